@@ -225,7 +225,10 @@ class Extractor(object):
                 pre += tuple(self.simple(it.context_expr))
             return [(pre + e, k) for (e, k) in self.block(st.body)]
         if isinstance(st, ast.Return):
-            return [(tuple(self.simple(st.value)) if st.value is not None else (), RET)]
+            evs = tuple(self.simple(st.value)) if st.value is not None else ()
+            if st.value is not None:
+                evs += (Ev(("ret", unparse(st.value))),)
+            return [(evs, RET)]
         if isinstance(st, ast.Raise):
             return [(tuple(self.simple(st.exc)) if st.exc is not None else (), RAISE)]
         if isinstance(st, ast.Break):
